@@ -942,6 +942,9 @@ class Translator:
                     return '((void)0)'
                 if ct in self.tm.kinds:
                     return '%s = %s' % (A(0), A(1))
+            if name == 'operator<<' and fam in ('std::basic_ostream', 'std::ostream', 'std::basic_ofstream', 'std::basic_fstream',
+                                                'std::basic_ostringstream', 'std::basic_stringstream') and len(args) == 2:
+                return self.stream_put(n, args)
             if name in ('operator*', 'operator->') and fam in ('std::optional', 'optional') and len(args) == 1:
                 return 'OPT_VAL(%s)' % A(0)
             key = 'op:%s:%s' % (fam, name)
@@ -1011,6 +1014,33 @@ class Translator:
         if x.get('kind') == 'StringLiteral':
             return self.e(x)
         return self.e(a)
+
+    def stream_put(self, n, args):
+        """os << x : one token appended to the ghost sink; the kind of token is decided by the static type of x"""
+        os_txt = self.e(args[0])
+        x = args[1]
+        y = x
+        while y.get('kind') in ('ImplicitCastExpr', 'ParenExpr', 'MaterializeTemporaryExpr', 'ExprWithCleanups') and y.get('inner'):
+            y = y['inner'][0]
+        self.cur.stubs.add('ghost output sink (stream << x)')
+        if y.get('kind') == 'DeclRefExpr' and y['referencedDecl'].get('kind') == 'FunctionDecl':
+            nm = y['referencedDecl'].get('name')
+            if nm in ('endl', 'flush', 'ends'):
+                return 'SINK_PUT_%s(%s)' % (nm.upper(), os_txt)
+            self.abort(n, 'stream manipulator ' + str(nm))
+        if y.get('kind') == 'StringLiteral':
+            return 'SINK_PUT_STR(%s, %s)' % (os_txt, self.e(y))
+        ct = self.tm.tname(x['type']).rstrip(' *').rstrip()
+        val = self.e(x)
+        if ct in ('real_t', 'realf_t'):
+            return 'SINK_PUT_REAL(%s, %s)' % (os_txt, val)
+        if ct in ('char', 'signed char', 'unsigned char'):
+            return 'SINK_PUT_CHAR(%s, %s)' % (os_txt, val)
+        if ct == 'c_opaque':
+            return 'SINK_PUT_TEXT(%s, %s)' % (os_txt, val)
+        if ct in SCALAR_C:
+            return 'SINK_PUT_NUM(%s, %s)' % (os_txt, val)
+        self.abort(n, 'stream output of a value of type ' + ct)
 
     def lib_arg(self, a):
         x = self.e(a)
@@ -2016,9 +2046,9 @@ class Translator:
             out.append('    default: __CPROVER_assert(0, "table pointer refers to a known constant table"); { real_t verif_u; return verif_u; }')
             out.append('    }\n}')
         for j, v in enumerate(self.strlits):
-            nm = re.sub(r'[^A-Za-z0-9]+', '_', v.strip('"')).strip('_')
-            if nm:
-                out.append('#define STR_%s %d' % (nm, j + 1))
+            lit = v.strip('"')
+            nm = lit if re.fullmatch(r'[A-Za-z0-9_]+', lit) else 'X' + lit.encode().hex()
+            out.append('#define STR_%s %d' % (nm, j + 1))
         return '\n'.join(out) + '\n'
 
     def emit_opaque(self):
